@@ -80,6 +80,20 @@ def grid(kind, m, seed=0):
         rnd = random.Random(1000003 * seed + m)
         vals = sorted(rnd.sample(range(-512, 513), m))  # multiples of 1/8 in [-64,64]
         return [v / 8.0 for v in vals]
+    if kind == "symmetric":  # symmetric about 0 (the two middle values sum to exactly 0; contains 0 when m is odd)
+        half = [0.5, 2.0, 2.75, 5.0, 6.5, 9.0, 11.0][: m // 2]
+        return [-v for v in reversed(half)] + ([0.0] if m % 2 else []) + half
+    if kind == "ulp_pow2":  # adjacent floats on both sides of a power of two (the spacing changes at 1.0)
+        below, above = [], []
+        v = 1.0
+        for _ in range(m // 2):
+            v = math.nextafter(v, 0.0)
+            below.append(v)
+        v = 1.0
+        for _ in range(m - m // 2 - 1):
+            v = math.nextafter(v, 2.0)
+            above.append(v)
+        return sorted(below) + [1.0] + above
     if kind == "ulp":
         base = 1.5
         out = [base]
@@ -97,6 +111,15 @@ def concretise(blocks, kind, seed=0):
         pos += [v] * a
         neg += [v] * b
     return pos, neg, vals
+
+
+def string_kinds(value):
+    """One option string in the ways a caller may hold it: the literal, an equal string built at run time (not the
+    interned literal object), and a NumPy string scalar."""
+    import numpy as np
+
+    built = "".join([value[: len(value) // 2], value[len(value) // 2:]])
+    return [("literal", value), ("built-at-run-time", built), ("np.str_", np.str_(value))]
 
 
 MIXED_KINDS = ["mixed", "mixed_narrow", "mixed_narrow_neg", "mixed_f32"]
